@@ -37,10 +37,60 @@ class Ref:
         self.box, self.key = box, key
 
     def get(self):
+        if isinstance(self.box, list) and isinstance(self.key, int) and self.key < 0:
+            raise IndexError('negative subscript')
         return self.box[self.key]
 
     def set(self, v):
+        if isinstance(self.box, list) and isinstance(self.key, int) and self.key < 0:
+            raise IndexError('negative subscript')
         self.box[self.key] = v
+
+    def moved(self, k):
+        """pointer arithmetic on a pointer into an array"""
+        return Ref(self.box, self.key + k)
+
+    def __eq__(self, o):
+        return isinstance(o, Ref) and self.box is o.box and self.key == o.key
+
+    def __ne__(self, o):
+        return not self.__eq__(o)
+
+    def __hash__(self):
+        return hash((id(self.box), self.key if isinstance(self.key, (int, str)) else id(self.key)))
+
+
+class Text(list):
+    """an abstract C string: character codes followed by the terminator; records which positions were read through the
+    evaluator (the length scan of strlen does not count)."""
+
+    def __init__(self, s):
+        list.__init__(self, [ord(c) for c in s] + [0])
+        self.reads = set()
+
+    def __getitem__(self, i):
+        if isinstance(i, int):
+            self.reads.add(i)
+        return list.__getitem__(self, i)
+
+    def length(self):
+        n = 0
+        while list.__getitem__(self, n) != 0:
+            n += 1
+        return n
+
+
+def _mutable_ref(t):
+    """the parameter type is a reference through which the callee can assign: `T &`, `const char *&` (a reference to a
+    pointer to const), but not `const T &` nor `T *const &`"""
+    if not t or not t.rstrip().endswith('&'):
+        return False
+    base = t.rstrip()[:-1].rstrip()
+    if base.endswith('*'):
+        return True
+    if '*' in base:
+        return 'const' not in base[base.rindex('*'):]
+    return not (base.startswith('const ') or base.endswith(' const'))
 
 
 class CxxModule:
@@ -56,7 +106,7 @@ class CxxModule:
             self.params = [p for p, _t in f.params]
             self.ptypes = [t for _p, t in f.params]
             self.loc = f.loc
-            self.byref = tuple(i for i, (_p, t) in enumerate(f.params) if t and '&' in t and not t.strip().startswith('const '))
+            self.byref = tuple(i for i, (_p, t) in enumerate(f.params) if _mutable_ref(t))
 
         @property
         def body(self):
@@ -90,6 +140,15 @@ class CxxModule:
         return cands[0] if cands else None
 
 
+def _copy_value(o, depth=0):
+    """copy of an object of class type: fields of class type are copied in turn, pointers are shared"""
+    c = AObj({}, cls=o.cls, ftypes=o.ftypes)
+    c.ptrs = getattr(o, 'ptrs', frozenset())
+    for k, v in o.attrs.items():
+        c.attrs[k] = _copy_value(v, depth + 1) if (isinstance(v, AObj) and depth < 8 and k not in c.ptrs) else v
+    return c
+
+
 def cxx_object(lib, cls, depth=0):
     """an abstract object of a C++ class of the library: integer fields 0, pointer fields null, fields of class type
     nested objects of the same kind (their declared integer widths recorded for typed evaluation)"""
@@ -105,7 +164,9 @@ def cxx_object(lib, cls, depth=0):
         else:
             sub = (t or '').replace('const ', '').strip()
             attrs[n] = cxx_object(lib, sub, depth + 1) if (depth < 6 and lib.classes.get(sub)) else None
-    return AObj(attrs, cls=cls, ftypes=ftypes)
+    o = AObj(attrs, cls=cls, ftypes=ftypes)
+    o.ptrs = frozenset(n for n, t, _x in lib.fields(cls) if t and '*' in t)
+    return o
 
 
 class Raised(Exception):
@@ -194,7 +255,7 @@ class AEval:
         ptypes = getattr(f, 'ptypes', None) or [None] * len(params)
         for p_, v_, t_ in zip(params, args, ptypes):
             it = self._ity(t_)
-            if isinstance(v_, Ref) and t_ and '&' in t_:
+            if isinstance(v_, Ref) and _mutable_ref(t_):
                 env[p_] = v_
                 env['\x00ref:' + p_] = True
             else:
@@ -338,6 +399,23 @@ class AEval:
 
     def binop(self, op, l, r, loc):
         try:
+            if isinstance(l, Ref) or isinstance(r, Ref):
+                # pointers into an array: p + k, k + p, p - k, p - q, and the comparisons of two pointers into one array
+                if op == '+' and isinstance(l, Ref) and isinstance(r, int):
+                    return l.moved(r)
+                if op == '+' and isinstance(r, Ref) and isinstance(l, int):
+                    return r.moved(l)
+                if op == '-' and isinstance(l, Ref) and isinstance(r, int):
+                    return l.moved(-r)
+                if isinstance(l, Ref) and isinstance(r, Ref) and l.box is r.box:
+                    if op == '-':
+                        return l.key - r.key
+                    if op in ('<', '<=', '>', '>=', '==', '!='):
+                        return {'<': l.key < r.key, '<=': l.key <= r.key, '>': l.key > r.key, '>=': l.key >= r.key,
+                                '==': l.key == r.key, '!=': l.key != r.key}[op]
+                if op in ('==', '!='):
+                    return (l == r) if op == '==' else (l != r)
+                raise AnalysisError('abstract evaluation: pointer arithmetic %s at %s' % (op, loc))
             if op == '+':
                 return l + r
             if op == '-':
@@ -401,6 +479,12 @@ class AEval:
                 v = lib.global_value(a[0])
                 if v is not None:
                     return v
+                try:
+                    arr = lib.array_values(a[0])       # a constant table of the library
+                except Exception:
+                    arr = None
+                if arr is not None:
+                    return list(arr)
             raise AnalysisError('abstract evaluation: unbound name %s at %s' % (a[0], e.loc))
         if k == 'this':
             return env['self']
@@ -416,7 +500,20 @@ class AEval:
         if k == 'index':
             o = self.ev(a[0], env, depth)
             i = self.ev(a[1], env, depth)
+            if isinstance(o, Ref):
+                return o.moved(i).get()
+            if isinstance(o, list) and isinstance(i, int) and i < 0:
+                raise IndexError('negative subscript')
             return o[i]
+        if k == 'incdec':
+            ref = self.ref_of(a[2], env, depth)
+            old = ref.get()
+            d = 1 if a[0] == '++' else -1
+            new = old.moved(d) if isinstance(old, Ref) else old + d
+            if self.typed and a[2].k == 'var':
+                new = self._wrap(new, env.get('\x00ty:' + a[2].a[0]))
+            ref.set(new)
+            return old if a[1] else new
         if k == 'un':
             v = self.ev(a[1], env, depth)
             if a[0] == '!':
@@ -481,8 +578,12 @@ class AEval:
                     flds = None
                 if flds:
                     from .cxx import int_type
+                    if len(args) == 1 and isinstance(args[0], AObj) and (args[0].cls or '').replace('const ', '').strip() == cls:
+                        return _copy_value(args[0])         # copy construction
                     obj = AObj({n: None for n, _t, _x in flds}, cls=cls, ftypes={n: int_type(t) for n, t, _x in flds if int_type(t)})
-                    ctors = [c for c in lib.fns(cls + '::' + cls.split('::')[-1]) if len(c.params) == len(args)]
+                    obj.ptrs = frozenset(n for n, t, _x in flds if t and '*' in t)
+                    ctors = [c for c in lib.fns(cls + '::' + cls.split('::')[-1]) if len(c.params) == len(args)
+                             and not (len(c.params) == 1 and cls.split('::')[-1] in (c.params[0][1] or ''))]
                     if ctors:
                         from types import SimpleNamespace
                         c = ctors[0]
@@ -493,6 +594,8 @@ class AEval:
                         for (n, t, _x), v in zip(flds, args):
                             obj.attrs[n] = self._wrap(v, int_type(t))
                         return obj
+                    if not args:
+                        return obj          # implicitly default-constructed
             raise AnalysisError('abstract evaluation: display %s at %s' % (a[0], e.loc))
         if k == 'call':
             return self.call(e, env, depth)
@@ -506,10 +609,25 @@ class AEval:
         if name in self.intr or short in self.intr:
             fn = self.intr.get(name) or self.intr[short]
             recv = self.ev(recv_e, env, depth) if recv_e is not None else None
-            args = [self.ev(x, env, depth) for x in args_e]
+            byref = getattr(fn, 'byref', ())
+            args = [self.ref_of(x, env, depth) if i in byref else self.ev(x, env, depth) for i, x in enumerate(args_e)]
+            if getattr(fn, 'with_exprs', False):
+                return fn(self, recv, args, args_e)       # the abstraction looks at the static type of its arguments
             return fn(self, recv, args)
         if recv_e is not None:
             recv = self.ev(recv_e, env, depth)
+            if self.typed and isinstance(recv, AObj) and self.module is not None and hasattr(self.module, 'select'):
+                # C++ member function: overload by arity and by the integer types of the reference arguments
+                at = []
+                for x in args_e:
+                    y = x
+                    while y.k == 'cast':
+                        y = y.a[2]
+                    at.append(env.get('\x00ty:' + y.a[0]) if y.k == 'var' else None)
+                callee = self.module.select(name, len(args_e), at)
+                if callee is not None:
+                    args = [self.ref_of(x, env, depth) if i in callee.byref else self.ev(x, env, depth) for i, x in enumerate(args_e)]
+                    return self.call_function(name, args, depth + 1, recv=recv, chosen=callee)
             args = [self.ev(x, env, depth) for x in args_e]
             if isinstance(recv, list):
                 if short == 'append':
